@@ -361,7 +361,8 @@ APPS = [("ape", "tum", ["ref.txt", "est.txt"]),
         ("rpe", "tum", ["ref.txt", "est.txt"]),
         ("rpe", "euroc", ["data.csv", "est.txt"]),
         ("traj", "tum", ["a.txt", "b.txt"]),
-        ("traj", "kitti", ["poses.txt"])]
+        ("traj", "kitti", ["poses.txt"]),
+        ("res", None, ["r1.zip", "r2.zip"])]
 
 
 # ------------------------------------------------------------------ check
@@ -444,7 +445,7 @@ class C18(Check):
         def grab(sim_, vp, cmd, res):
             for name in PARSE_PRELOAD:
                 vproc.load_module(name)
-            for app in ("ape", "rpe", "traj"):
+            for app in ("ape", "rpe", "traj", "res"):
                 vproc.load_module(f"evo.main_{app}_parser")
                 holder[app] = sys.modules[f"evo.main_{app}_parser"].parser()
 
@@ -890,7 +891,7 @@ class C18(Check):
     # -- generate / -c equivalence
     def _op_generate(self, sim, model, op, res, nc):
         alpha = self.alphabets[(op["app"], op["sub"])]
-        pos = [op["sub"]] + list(op["positional"])
+        pos = ([op["sub"]] if op["sub"] else []) + list(op["positional"])
         out = op["out"]
         tmp_out = out or f"{WORK}/.generated_tmp.json"
         sim.fs.make_dirs(WORK)
@@ -971,7 +972,7 @@ class C18(Check):
         if op["config"] not in model.files:
             return None
         cfg = plain_dict(model.files[op["config"]])
-        pos = [op["sub"]] + list(op["positional"])
+        pos = ([op["sub"]] if op["sub"] else []) + list(op["positional"])
         cmds = [
             {"cmd": "parse", "app": op["app"],
              "argv": pos + list(op["argv"]) + ["-c", op["config"]]},
